@@ -25,24 +25,24 @@ Proof.
 Qed.
 
 Lemma table_is_val : forall rel,
-  match rel with Some (TFTable d) => bad_quoted d = false | _ => True end ->
+  match rel with Some (TFTable d) => valid_utf8 d = true | _ => True end ->
   is_val (get_table_name rel) = match rel with Some (TFTable _) => true | _ => false end.
 Proof.
-  intros [[d|]|] H; try reflexivity. cbn. rewrite strip_quotes_is_val, H. reflexivity.
+  intros [[d|]|] H; try reflexivity. cbn. apply strip_quotes_is_val. exact H.
 Qed.
 
-(* outside the panic class, parse_query returns a query iff the statement is in the supported
-   grammar; otherwise it returns an error value *)
-Lemma parse_query_is_val : forall p, known_panic_class p = false -> is_val (parse_query p) = supported p.
+(* parse_query returns a query iff the statement is in the supported grammar; otherwise it returns
+   an error value *)
+Lemma parse_query_is_val : forall p, parser_output p = true -> is_val (parse_query p) = supported p.
 Proof.
   intros [| |stmts] H; try reflexivity.
-  destruct stmts as [|st rest]; [discriminate|].
+  destruct stmts as [|st rest]; [reflexivity|].
   destruct rest as [|st2 rest]; [|destruct st as [[?|] ? ?|]; reflexivity].
   destruct st as [b ob lc|]; [|reflexivity].
   destruct b as [s|]; [|reflexivity].
-  cbn in H.
-  apply orb_false_iff in H as [H Hlim]. apply orb_false_iff in H as [H Hord].
-  apply orb_false_iff in H as [H Hsel]. apply orb_false_iff in H as [Hitems Hrel].
+  cbn in H. rewrite andb_true_r in H.
+  apply andb_true_iff in H as [H Hord]. apply andb_true_iff in H as [H Hsel].
+  apply andb_true_iff in H as [Hitems Hrel].
   cbn [parse_query length Nat.ltb Nat.leb].
   rewrite (is_val_bind2 _ _ _ _
     (forallb item_supported (s_projection s)
@@ -73,8 +73,8 @@ Proof.
        && match lc with LCLimitOffset l o => count_supported l && count_supported o | _ => true end)).
     { rewrite Er. rewrite table_is_val.
       - destruct (s_from s) as [|f fr]; [reflexivity|]. destruct (fi_relation f); repeat rewrite <- andb_assoc; reflexivity.
-      - destruct (s_from s) as [|f fr]; [exact I|]. cbn in Hrel. apply orb_false_iff in Hrel as [Hf _].
-        unfold relation_bad in Hf. destruct (fi_relation f); [exact Hf|exact I]. }
+      - destruct (s_from s) as [|f fr]; [exact I|]. cbn in Hrel. apply andb_true_iff in Hrel as [Hf _].
+        unfold relation_wf in Hf. destruct (fi_relation f); [exact Hf|exact I]. }
     intros tb _.
     rewrite (is_val_bind2 _ _ _ _
       (match ob with OBExprs l => forallb (fun p => expr_supported (fst p)) l | _ => true end
@@ -87,17 +87,15 @@ Proof.
     { rewrite Eo. destruct ob as [|l|]; try reflexivity. cbn [get_order_by].
       rewrite order_list_is_val by assumption. reflexivity. }
     intros od _.
-    assert (Hl : count_bad (c_limit c) = false /\ count_bad (c_offset c) = false /\
-                 count_supported (c_limit c) && count_supported (c_offset c)
+    assert (Hl : count_supported (c_limit c) && count_supported (c_offset c)
                  = match lc with LCLimitOffset l o => count_supported l && count_supported o | _ => true end).
-    { destruct lc; cbn in Elo; injection Elo as -> ->; try (repeat split; reflexivity).
-      cbn in Hlim. apply orb_false_iff in Hlim as [? ?]. repeat split; assumption. }
-    destruct Hl as (Hl & Ho & <-).
+    { destruct lc; cbn in Elo; injection Elo as -> ->; reflexivity. }
+    rewrite <- Hl.
     rewrite (is_val_bind2 _ _ _ _ (count_supported (c_offset c))).
-    { rewrite limit_is_val by assumption. reflexivity. }
+    { rewrite limit_is_val. reflexivity. }
     intros lv _.
     rewrite (is_val_bind2 _ _ _ _ true); [|reflexivity].
-    rewrite offset_is_val by assumption. apply andb_true_r.
+    rewrite offset_is_val. apply andb_true_r.
 Qed.
 
 (* output names: one per select item, in order, the alias or the written text unquoted *)
